@@ -10,6 +10,13 @@ tokens
   ]c  ]a                      the closure returns nil / returns an error (Write: rollback)
   dump                        (outside transactions) canonical dump of every table
   reopen                      (outside transactions) Close + New + Init on the same directory
+  client:<variant>            (outside transactions) the same, with the client built as plain | debug | trace | debug+trace
+                              (sqlite3.NewBuilder options Debug(), Trace()); answer `ok`
+  grow:<k>                    (outside transactions) k ≤ 32 goroutines enter Client.Read together and issue the argument-less
+                              lookups: the database/sql pool opens further connections, what follows runs on another one.
+                              Answer `ok`; the implementation side answers `err:read` / `err:diverged` when a concurrent
+                              lookup fails / differs from the sequential one, `fk-off:<n>/<m>` when n of the m idle pooled
+                              connections do not enforce foreign keys
   Method:arg:arg…             one call of db.ReadOnly / db.Transaction inside a transaction
 
 arguments
